@@ -125,7 +125,7 @@ def read_oracle(steps, statuses, fulls):
 
 def _work(args):
     seed, idxs, n_ops, profiles = args
-    workdir = tempfile.mkdtemp(prefix='pvreads', dir='/dev/shm')
+    workdir = tempfile.mkdtemp(prefix='pvreads', dir='/dev/shm' if os.path.isdir('/dev/shm') else None)
     batch, oracle_hits, n_reads = [], [], 0
     for i in idxs:
         rng = random.Random(seed * 1000003 + i)
